@@ -370,8 +370,10 @@ class Ref:
 
     def note_annotation(self, name, text, times):
         if times is None:
-            self.clock += 1
-            times = (10**12 + self.clock, 10**12 + self.clock)     # sequential mode
+            # an operation executed sequentially (journal/exception modes, pre-stores):
+            # after everything acknowledged so far
+            times = (self.clock + 1, self.clock + 1)
+        self.clock = max(self.clock, times[1])
         self.annot_writes.setdefault(name, []).append((text, times[0], times[1]))
         self.annot[name] = text
 
